@@ -3,6 +3,7 @@ package main
 import (
 	"fmt"
 	"go/ast"
+	"go/constant"
 	"go/token"
 	"go/types"
 	"sort"
@@ -130,6 +131,7 @@ func runC02(c *Ctx, r *Report) {
 	r.Rule("C02.R2", "operator nodes (those built by infix/postfix-registered parse functions and the prefix-operator node) consult the enclosing precedence to decide on parentheses and set their own precedence before printing their left-position child")
 	r.Rule("C02.R3", "table agreement: every token type an operator node can carry into needParen has an entry in ast.Precedences (needParen panics otherwise)")
 	r.Rule("C02.R4", "escape alphabets: every escape strconv.Quote can emit is decoded by the lexer's readString to the byte(s) it denotes: \\a \\b \\f \\n \\r \\t \\v to their control bytes, \\\\ and \\\" to themselves, \\x to one raw byte, \\u and \\U to a rune")
+	r.Rule("C02.R6", "a value-less return ends its block: every path of parseReturnStatement that returns without storing ReturnValue shifts no token and is selected by a test that the next token is a block closer (}, end of input, end of line) or a token with no prefix parse function (the next statement then fails to parse); otherwise `return` <newline> `x` re-parses as `return x`")
 	r.Rule("C02.R5", "statement separation: between two consecutive statements of a block a separator is emitted on every path in long form (space or newline) and in compact form; the 'previous statement' used for that decision is the previous sibling (it is recorded after the statement's own children are printed)")
 
 	astPkg := c.P("ast")
@@ -412,6 +414,127 @@ func runC02(c *Ctx, r *Report) {
 
 	// ---- R5 ----
 	c.checkStatementSeparation(r)
+
+	// ---- R6 ----
+	c.checkBareReturn(r)
+}
+
+// checkBareReturn: the printer writes a value-less return as the bare keyword, and in file mode the
+// parser reads `return` <newline> `x` as `return x`. The printed form is therefore only stable when
+// nothing can follow a value-less return inside its block.
+func (c *Ctx) checkBareReturn(r *Report) {
+	fn := c.SSAFn(c.Fn("parser", "Parser.parseReturnStatement"))
+	fname := ssaFuncName(fn)
+	retT := c.TypeNamed("ast", "ReturnStatement")
+	valIdx := fieldIndex(retT, "ReturnValue")
+	nextToken := c.Fn("parser", "Parser.nextToken")
+	peekTokenIs := c.Fn("parser", "Parser.peekTokenIs")
+	expectPeek := c.Fn("parser", "Parser.expectPeek")
+	if valIdx < 0 {
+		r.Undecided("C02.R6: ast.ReturnStatement.ReturnValue not found")
+		return
+	}
+	isValueStore := func(in ssa.Instruction) bool {
+		st, ok := in.(*ssa.Store)
+		if !ok {
+			return false
+		}
+		fa, ok := st.Addr.(*ssa.FieldAddr)
+		return ok && fa.Field == valIdx && namedStruct(fa.X.Type()) != nil && namedStruct(fa.X.Type()).Obj() == retT.Obj()
+	}
+	hasStore := false
+	eachInstr(fn, func(in ssa.Instruction) {
+		if isValueStore(in) {
+			hasStore = true
+		}
+	})
+	if !hasStore {
+		r.Undecided("C02.R6: parseReturnStatement never stores ReturnValue")
+		return
+	}
+	// token types with a prefix parse function: a statement can start with them
+	prefix := map[int64]bool{}
+	for _, regs := range c.TokRel().Keys {
+		for k := range regs["registerPrefix"] {
+			prefix[k] = true
+		}
+	}
+	if len(prefix) < 10 {
+		r.Undecided("C02.R6: only %d prefix registrations resolved", len(prefix))
+		return
+	}
+	closers := map[int64]string{}
+	for _, n := range []string{"RBRACE", "EOF", "EOL"} {
+		if k, ok := constant.Int64Val(c.Const("token", n).Val()); ok {
+			closers[k] = n
+		}
+	}
+	type st struct {
+		b       *ssa.BasicBlock
+		shifted bool
+		tests   string // terminator tests taken on their true edge
+	}
+	seen := map[st]bool{}
+	nBare := 0
+	var walk func(b *ssa.BasicBlock, shifted bool, tests []int64, trail []*ssa.BasicBlock)
+	walk = func(b *ssa.BasicBlock, shifted bool, tests []int64, trail []*ssa.BasicBlock) {
+		key := st{b, shifted, fmt.Sprint(tests)}
+		if seen[key] {
+			return
+		}
+		seen[key] = true
+		trail = append(trail, b)
+		for _, in := range b.Instrs {
+			if isValueStore(in) {
+				return // not a value-less return
+			}
+			if isCallTo(in, nextToken, expectPeek) {
+				shifted = true
+			}
+			if ret, ok := in.(*ssa.Return); ok {
+				nBare++
+				desc := fmt.Sprintf("value-less return #%d leaves the token after it unread and only before a block closer or a token no statement starts with", nBare)
+				var why []string
+				if shifted {
+					why = append(why, "a token is shifted on the way: the statement after it is parsed into the same block")
+				}
+				if len(tests) == 0 {
+					why = append(why, "no test of the following token selects this path")
+				}
+				for _, k := range tests {
+					if _, ok := closers[k]; ok {
+						continue
+					}
+					if prefix[k] {
+						why = append(why, fmt.Sprintf("token type %d after it can start the next statement", k))
+					}
+				}
+				if len(why) > 0 {
+					r.Fail("C02.R6", fname, desc, c.Pos(instrPos(ret)), strings.Join(why, "; ")+": a value-less return followed by a statement prints as `return` <newline> <statement>, which parses back as one return of that statement", c.tracePath(&pathResult{exit: ret, trace: trail})...)
+				} else {
+					r.Ok("C02.R6", fname, desc, c.Pos(instrPos(ret)))
+				}
+				return
+			}
+		}
+		if ifi, ok := b.Instrs[len(b.Instrs)-1].(*ssa.If); ok {
+			if call, isCall := ifi.Cond.(*ssa.Call); isCall && isCallTo(call, peekTokenIs) {
+				if k, isK := constInt(call.Common().Args[1]); isK {
+					walk(b.Succs[0], shifted, append(append([]int64{}, tests...), k), trail)
+					walk(b.Succs[1], shifted, tests, trail)
+					return
+				}
+			}
+		}
+		for _, s := range b.Succs {
+			walk(s, shifted, tests, trail)
+		}
+	}
+	walk(fn.Blocks[0], false, nil, nil)
+	if nBare == 0 {
+		r.Undecided("C02.R6: no value-less return path found in parseReturnStatement")
+	}
+	r.Floor("C02.R6", 4)
 }
 
 // precedenceKeys: token types with an entry in ast.Precedences (from the composite literal).
